@@ -341,13 +341,16 @@ def playback_native(h, test_src):
     scratch = os.path.join(BUILD, "playback", h["name"].replace("::", "__"))
     shutil.rmtree(scratch, ignore_errors=True)
     shutil.copytree(KANI_DIR, scratch, ignore=shutil.ignore_patterns("target"))
-    modfile = os.path.join(scratch, "src", h["name"].split("::")[0] + ".rs")
+    parts = h["name"].split("::")[:-1]
+    modfile = os.path.join(scratch, "src", *parts) + ".rs"
+    if not os.path.exists(modfile):
+        modfile = os.path.join(scratch, "src", *parts, "mod.rs")
     with open(modfile, "a") as f:
         f.write("\n" + test_src + "\n")
     tname = re.search(r"fn (kani_concrete_playback_\w+)", test_src).group(1)
     results = {}
     for prof in ("dev", "release"):
-        cmd = ["cargo", "kani", "playback", "-Z", "concrete-playback", "--test", tname]
+        cmd = ["cargo", "kani", "playback", "-Z", "concrete-playback"] + feature_args() + ["--", tname]
         if prof == "release":
             # release-like semantics: no debug assertions / overflow checks
             env = dict(ENV)
